@@ -54,3 +54,81 @@ def expand(c: Ctx, f: Func, e: ast.AST, at: ast.AST, depth: int = 3) -> ast.AST:
             inner = expand(c, f, d.value, d.stmt, depth - 1)
             return copy.deepcopy(inner)
     return X().visit(copy.deepcopy(e))
+
+
+def record_fields(c: Ctx, m, call: ast.AST) -> list[ast.AST] | None:
+    """If `call` constructs a NamedTuple / dataclass-like record class of the project with positional / keyword arguments: the
+    argument expressions in field order."""
+    if not (isinstance(call, ast.Call) and isinstance(call.func, (ast.Name, ast.Attribute))):
+        return None
+    r = c.p.resolve(m, call.func)
+    node = getattr(r, "node", None)
+    if not isinstance(node, ast.ClassDef):
+        return None
+    order = [s.target.id for s in node.body if isinstance(s, ast.AnnAssign) and isinstance(s.target, ast.Name)]
+    if not order or any(isinstance(a, ast.Starred) for a in call.args) or any(k.arg is None for k in call.keywords):
+        return None
+    vals: dict[str, ast.AST] = {}
+    for fld, a in zip(order, call.args):
+        vals[fld] = a
+    for k in call.keywords:
+        vals[k.arg] = k.value          # type: ignore[index]
+    if set(vals) != set(order):
+        return None
+    return [vals[fld] for fld in order]
+
+
+def unpack_sources(c: Ctx, f: Func, name: str, stmt: ast.AST, depth: int = 0) -> list[tuple[Func, ast.AST, ast.AST]] | None:
+    """For `..., name, ... = <value>` (stmt): the expressions that can flow into `name` - components of tuple displays / record
+    constructors, followed through a single-definition local and through the returns of a directly called helper (a `None`
+    return is skipped: the caller must have tested for it).  -> [(function, expression, statement it stands in)] or None."""
+    if depth > 3 or not (isinstance(stmt, ast.Assign) and len(stmt.targets) == 1 and isinstance(stmt.targets[0], (ast.Tuple, ast.List))):
+        return None
+    tg = stmt.targets[0].elts
+    ks = [i for i, t in enumerate(tg) if isinstance(t, ast.Name) and t.id == name]
+    if len(ks) != 1 or any(isinstance(t, ast.Starred) for t in tg):
+        return None
+    k, n = ks[0], len(tg)
+
+    def comps(g: Func, v: ast.AST, at: ast.AST, d: int) -> list[tuple[Func, ast.AST, ast.AST]] | None:
+        if d > 3:
+            return None
+        if isinstance(v, (ast.Tuple, ast.List)) and len(v.elts) == n:
+            return [(g, v.elts[k], at)]
+        rf = record_fields(c, g.module, v)
+        if rf is not None and len(rf) == n:
+            return [(g, rf[k], at)]
+        if isinstance(v, ast.IfExp):
+            a, b = comps(g, v.body, at, d + 1), comps(g, v.orelse, at, d + 1)
+            return None if a is None or b is None else a + b
+        if isinstance(v, ast.Name):
+            ds = reaching(c, g).at_ast(at, v.id)
+            out: list[tuple[Func, ast.AST, ast.AST]] = []
+            for dd in ds:
+                if dd.kind != "assign" or dd.value is None:
+                    return None
+                r_ = comps(g, dd.value, dd.stmt, d + 1)
+                if r_ is None:
+                    return None
+                out += r_
+            return out or None
+        if isinstance(v, ast.Call):
+            cs = c.cg.site_of.get(v)
+            if cs is None or len(cs.callees) != 1 or cs.kind not in ("direct", "method"):
+                return None
+            h = cs.callees[0]
+            out2: list[tuple[Func, ast.AST, ast.AST]] = []
+            from .core import own_nodes
+            rets = [x for x in own_nodes(h.node) if isinstance(x, ast.Return)]
+            if not rets:
+                return None
+            for rt in rets:
+                if rt.value is None or (isinstance(rt.value, ast.Constant) and rt.value.value is None):
+                    continue
+                r_ = comps(h, rt.value, rt, d + 1)
+                if r_ is None:
+                    return None
+                out2 += r_
+            return out2 or None
+        return None
+    return comps(f, stmt.value, stmt, depth)
